@@ -128,7 +128,9 @@ def normalize(decl):
 def norm_prio(p, key, n):
     if not p:
         return {"kind": "none", "list": []}
-    if p.get("kind") not in ("higher", "lower"):
+    if p.get("kind") == "lower":
+        raise DeclError("lower_outgoing_priority<> is declared but not implemented in Bluetoe (a server using it does not compile)")
+    if p.get("kind") != "higher":
         raise DeclError("priority kind %r" % p.get("kind"))
     lst = [int(i) for i in p.get(key, [])]
     if any(not (1 <= i <= n) for i in lst) or len(set(lst)) != len(lst):
